@@ -18,6 +18,7 @@ WORK = os.path.join(VERIF, "work")
 EVID = os.path.join(VERIF, "evidence")
 REPLAYS = os.path.join(VERIF, "replays")
 NPROC = min(16, os.cpu_count() or 4)
+PER_FILE_TIMEOUT = int(os.environ.get("VERIF_COQC_TIMEOUT", "900"))
 
 if REPO not in sys.path:
     sys.path.insert(0, REPO)
@@ -237,7 +238,9 @@ def make(targets, timeout=3000, keep_going=True):
         if not os.path.exists(os.path.join(COQ, "Makefile")) or \
                 os.path.getmtime(os.path.join(COQ, "Makefile")) < os.path.getmtime(os.path.join(COQ, "_CoqProject")):
             regenerate_makefile()
-        cmd = ["make", "-C", COQ, "-j%d" % NPROC] + (["-k"] if keep_going else []) + list(targets)
+        # every coqc call is bounded: a diverging tactic in one file must not stall the whole build
+        cmd = ["make", "-C", COQ, "-j%d" % NPROC, "COQC=timeout %d coqc" % PER_FILE_TIMEOUT] + \
+              (["-k"] if keep_going else []) + list(targets)
         p = subprocess.run(cmd, capture_output=True, text=True, timeout=timeout)
         return p.returncode == 0, p.stdout + p.stderr
 
